@@ -475,7 +475,7 @@ func Harness_E_C18a() {
 	vhSameLayout(a, b, "monitor")
 }
 
-// Harness_E_C18b: histories of K calls; call i is (solver-chosen) one of: empty graph (panics),
+// Harness_E_C18b: histories of K calls; call i is (cube constants kind[i], mon[i]) one of: empty graph (panics),
 // a self-looped single node, one edge, the cube's shape; with its own recording monitor or none.
 // A monitor receives events only during its own call.
 func Harness_E_C18b() {
@@ -487,8 +487,8 @@ func Harness_E_C18b() {
 		recs[i] = &vhRecorder{}
 	}
 	for i := 0; i < k; i++ {
-		kind := vhInt("kind", 0, 3)
-		withMon := vhBool("mon")
+		kind := vhConstIdx("kind", i)
+		withMon := vhConstIdx("mon", i) == 1
 		var src graph.EdgeSlice
 		switch kind {
 		case 0:
